@@ -166,8 +166,10 @@ func runM(c MCase) *stat.Failure {
 	keys := make([]string, c.NServers)
 	var sp *tars.ServantProxy
 	name := fmt.Sprintf("Verif.C14.Obj%d", atomic.AddInt64(&mSeq, 1))
+	var mreg *mRegistry
 	if c.Registry {
 		reg := &mRegistry{}
+		mreg = reg
 		for i := 0; i < c.NServers; i++ {
 			hosts[i] = mServers[i].Host
 			ef := endpointf.EndpointF{Host: hosts[i], Port: int32(mServers[i].Port), Timeout: 60000, Istcp: 1, Weight: 100}
@@ -303,6 +305,19 @@ func runM(c MCase) *stat.Failure {
 			}
 			if f := phase("after endpoint "+hosts[c.Block]+" left rotation:", installed, in2); f != nil {
 				return f
+			}
+			if mreg != nil {
+				// the registry publishes a changed answer (a QoS value, no endpoint changes its
+				// identity) and the manager refreshes while the endpoint is still out: the
+				// routing stays that of the reduced set
+				mreg.eps[(c.Block+1)%c.NServers].Qos++
+				if err := sp.VerifRefresh(); err != nil {
+					return stat.Failf("harness-failure", "refresh: %v", err)
+				}
+				st.Class("manager-refresh-while-blocked", 1)
+				if f := phase("after a registry refresh while "+hosts[c.Block]+" is out of rotation:", installed, in2); f != nil {
+					return f
+				}
 			}
 		}
 	}
